@@ -256,6 +256,9 @@ def report(module: Any, total: Result, tier: str, seed: int, wall: float, n_item
         print("  signature:", json.dumps(jsonable(v["signature"]), sort_keys=True))
         print("  detail:", json.dumps(jsonable(v["detail"]), sort_keys=True)[:1500])
         exit_code = 1
+    for v in unknown[20:]:
+        # beyond the replay cap: listed so that every distinct signature is visible (the first 20 were replayed)
+        print(f"  further-signature (not replayed): {json.dumps(jsonable(v['signature']), sort_keys=True)} count={v.get('count')}")
     vac = getattr(module, "vacuity", None)
     if vac is not None:
         for msg in vac(total, tier):
